@@ -25,7 +25,7 @@ UpdRes(r) == [err |-> r.err, sup |-> r.sup, off |-> r.off, ep |-> r.ep, cur |-> 
 TCfg ==
   /\ IsEvent("Cfg") /\ step.act = "Init"
   /\ cf' = [mode |-> Ev.cf.mode, ord |-> Ev.cf.ord, kttl |-> Ev.cf.kttl, size |-> Ev.cf.size, sttl |-> Ev.cf.sttl, mttl |-> Ev.cf.mttl]
-  /\ UNCHANGED <<chEx, st, top, win, ep, epc, expAt, expQ, remAt, remQ, idem, pend, now, npub, nops, bc>>
+  /\ UNCHANGED <<chEx, chOrd, st, top, win, ep, epc, expAt, expQ, remAt, remQ, idem, iq, gidem, nkc, pend, now, npub, nops, bc>>
   /\ step' = [act |-> "Cfg"]
 
 TTick == IsEvent("Tick") /\ Tick /\ now' = Ev.now
@@ -71,22 +71,22 @@ TPeek ==
   /\ \A i \in 1..Len(Ev.keys) : st[Ev.keys[i]].off = Ev.offs[i] /\ st[Ev.keys[i]].id = Ev.ids[i]
   /\ UNCHANGED vars
 
-TSilent == (SweepExpire \/ SweepRemove \/ ExpirePhase1 \/ ExpirePhase2) /\ UNCHANGED l
+TSilent == (SweepExpire \/ SweepRemove \/ SweepIdem \/ ExpirePhase1 \/ ExpirePhase2) /\ UNCHANGED l
 
 TReset ==
   /\ IsEvent("Reset")
-  /\ chEx' = FALSE /\ st' = Empty /\ top' = 0 /\ win' = <<>> /\ ep' = 0 /\ epc' = 0
+  /\ chEx' = FALSE /\ chOrd' = FALSE /\ st' = Empty /\ top' = 0 /\ win' = <<>> /\ ep' = 0 /\ epc' = 0
   /\ expAt' = 0 /\ expQ' = 0 /\ remAt' = 0 /\ remQ' = 0
-  /\ idem' = Empty /\ pend' = <<>>
+  /\ idem' = Empty /\ iq' = {} /\ gidem' = Empty /\ nkc' = 0 /\ pend' = <<>>
   /\ now' = 0 /\ npub' = 0 /\ nops' = 0 /\ bc' = <<>>
   /\ UNCHANGED cf
   /\ step' = [act |-> "Init"]
 
 TraceInit ==
   /\ cf = Cfg("per", FALSE, 0, 1, 1, 0)
-  /\ chEx = FALSE /\ st = Empty /\ top = 0 /\ win = <<>> /\ ep = 0 /\ epc = 0
+  /\ chEx = FALSE /\ chOrd = FALSE /\ st = Empty /\ top = 0 /\ win = <<>> /\ ep = 0 /\ epc = 0
   /\ expAt = 0 /\ expQ = 0 /\ remAt = 0 /\ remQ = 0
-  /\ idem = Empty /\ pend = <<>>
+  /\ idem = Empty /\ iq = {} /\ gidem = Empty /\ nkc = 0 /\ pend = <<>>
   /\ now = 0 /\ npub = 0 /\ nops = 0 /\ bc = <<>>
   /\ step = [act |-> "Init"]
   /\ l = 1 /\ TLCSet(1, 0)
@@ -124,5 +124,10 @@ T_NeverLostNeverTwice == [][NotAdmin =>
         \/ step'.act \in {"Clear", "SweepRemove"}
         \/ (step'.act \in {"Remove", "ExpirePhase2"} /\ Len(bc') = 1 /\ bc'[1].rm /\ bc'[1].key = k)
    /\ \A i \in 1..Len(bc') : bc'[i].rm => (bc'[i].key \in DOMAIN st /\ bc'[i].key \notin DOMAIN st'))]_tvars
+T_IdemExact == [][NotAdmin =>
+  ((IsWrite /\ ~step'.res.err) =>
+     /\ (step'.res.sup = "idempotency") <=> GhostHit(step'.args.ik)
+     /\ (step'.res.sup = "idempotency") =>
+           (step'.res.off = gidem[step'.args.ik].off /\ step'.res.ep = gidem[step'.args.ik].ep))]_tvars
 T_EpochStable == [][NotAdmin => ((chEx /\ chEx') => (ep' = ep /\ top' >= top))]_tvars
 =============================================================================
